@@ -89,3 +89,20 @@ Definition encode_varint (i : Z) : res bytes :=
   else if i <? 4294967296 then rmap (cons 254) (int_to_little_endian i 4)
   else if i <? 18446744073709551616 then rmap (cons 255) (int_to_little_endian i 8)
   else Err.
+
+(* s.read(n) that must deliver n bytes (the repaired code raises on a short read) *)
+Definition sread_exact (n : nat) (s : stream) : res (bytes * stream) :=
+  let '(chunk, s') := sread n s in
+  if (length chunk =? n)%nat then Ok (chunk, s') else Err.
+
+(* read_varint *)
+Definition read_varint (s : stream) : res (Z * stream) :=
+  do (b, s1) <- sread_exact 1 s;
+  match b with
+  | [i] =>
+      if i =? 253 then do (d, s2) <- sread_exact 2 s1; Ok (little_endian_to_int d, s2)
+      else if i =? 254 then do (d, s2) <- sread_exact 4 s1; Ok (little_endian_to_int d, s2)
+      else if i =? 255 then do (d, s2) <- sread_exact 8 s1; Ok (little_endian_to_int d, s2)
+      else Ok (i, s1)
+  | _ => Err
+  end.
